@@ -7,7 +7,7 @@ Proof. apply map_length. Qed.
 
 Lemma untouched_nth ds i : nth i (untouched ds) [] = [].
 Proof.
-  revert i. induction ds as [|d r IH]; intros [|i]; cbn; auto. apply IH.
+  revert i. induction ds as [|d r IH]; intros [|i]; cbn; auto.
 Qed.
 
 Lemma clean_run_length ds : length (fst (clean_run ds)) = length ds.
